@@ -14,6 +14,9 @@ CHECKS = {
     "C05": dict(level="exploration", technique="deterministic simulation (seeded clock-configuration search, exact-time oracle)",
                 text="seeded search over (start instant, step, output step, requested durations, number of calls) with the real Scenario run end to end under the simulator; exact integer-time oracle; sampled, not exhaustive",
                 note="trusts python datetime/integer arithmetic as the calendar; synthetic EOP rows outside 2014-2022; two-body truth only"),
+    "C08": dict(level="exploration", technique="deterministic simulation (seeded and per-batch-exhaustive completion-order / execution-order / task-retry exploration; conservation + cross-schedule equality oracles)",
+                text="each generated network case is run under a base schedule and a family of alternative schedules (every permutation of each batch with <= 4 jobs, LIFO, lazy/shuffled execution, random joint orders, task retry); per-run bookkeeping conservation and cross-schedule equality of everything a step produces",
+                note="noise is a function of (run seed, job ordinal); estimates compared at 1e-9 relative; rounding-tie decision flips counted indeterminate; one known finding (F11) keyed on sensors tasked in several jobs"),
     "C10": dict(level="exploration", technique="deterministic simulation (differential runs over configuration, run-splitting, schedule and retry variants; bit-equality oracle)",
                 text="families of scenarios sharing dynamics and initial states but differing in estimation/tasking/sensor/noise/output/splitting/schedule/agent-set are run under the simulator; truth compared bit for bit",
                 note="bit equality of in-memory truth after every step and of stored truth rows at common epochs; sampled families"),
